@@ -3,7 +3,8 @@
 E3 small-scope enumeration: families of overloads of one name `foo`
 (parameter lists built from positional parameters with/without default, *args,
 keyword-only, **kwargs, a hidden Engine/Context parameter at position 0/1/2,
-lazy parameters; types from the lattice Any > A > B, C unrelated, nullable or
+lazy parameters; types from the lattice Any > A > B, C unrelated, and the union
+type AC = PythonType((A, C)) that compares with nothing, nullable or
 not; kinds function / method / extension; @no_kwargs) spread over chains of
 contexts (same layer, child, grandchild with an empty layer between, exclusive
 layer) x calls (<= 2 positional + <= 1 keyword argument, empty slots,
@@ -38,8 +39,9 @@ ASSUMPTIONS = ['defaults of the enumerated parameters are type-correct for their
 BOUNDS = {
     'quick': 'singles: parameter lists of <= 2 positional from 7 shapes [Any, A, B, Lazy, A?, A=default, C] x 11 extensions '
              '[*r, **kw, kW optional/required, kW with **kw, hidden Engine at 0 / Context at 1 / Engine at 2, combinations] x 3 kinds x 249 calls, both paths; '
-             'pairs: 49 parameter lists squared (ext/function kinds) x {same, child, grandchild, exclusive} x 133 calls '
+             'pairs: 53 parameter lists (4 with an AC parameter) squared (ext/function kinds) x {same, child, grandchild, exclusive} x 133 calls '
              '(text path for the same-layer families); kind mixing: 6 lists squared x 8 kind pairs x 4 layerings; '
+             'types: all pairs of 1-parameter lists over {Any, A, B, C, AC=(A, C)} x nullable x 4 layerings, both paths; '
              '@no_kwargs: 9 lists, flags (T), (T,T), (T,F), (F,T) x 3 layerings; triples: 7 lists cubed x 5 layerings',
     'thorough': 'singles: 10 shapes x 17 extensions (also typed/lazy *r, typed **kw, lazy kW) x 3 kinds x 349 calls '
                 '(constants 1, \'k\', kw); pairs: 157 lists squared x 4 layerings x 173 calls; kind mixing and @no_kwargs on 16 lists; '
@@ -60,7 +62,8 @@ def P(name, kind, typ, nullable=False, default=False):
 CORE = [('Any', False, False), ('A', False, False), ('B', False, False), ('Lazy', True, False),
         ('A', True, False), ('A', False, True)]
 UNRELATED = [('C', False, False)]
-MORE = [('Any', True, True), ('Lazy', True, True), ('C', True, False)]
+MORE = [('Any', True, True), ('Lazy', True, True), ('C', True, False),
+        ('AC', False, False)]     # AC = PythonType((A, C)): accepts a, b, c; incomparable with every other type
 
 R_ANY = P('r', 'varargs', 'Any', True)
 R_B = P('r', 'varargs', 'B', False)
@@ -112,6 +115,8 @@ def all_plists(tier):
 def pair_plists(tier):
     """Parameter lists used for 2-overload families."""
     out = bases(CORE) + [(P('x', 'pos', 'C'),), (P('x', 'pos', 'C', True),)]     # C?: incomparable with A? on null
+    out += [(P('x', 'pos', 'AC'),), (P('x', 'pos', 'AC', True),), (P('x', 'pos', 'A'), P('y', 'pos', 'AC')),
+            (P('x', 'pos', 'AC'), P('y', 'pos', 'Any'))]
     for e in extensions((P('x', 'pos', 'A'),), 'quick')[1:]:
         if e not in out:
             out.append(e)
@@ -133,6 +138,11 @@ def small_plists(tier):
         out += [(x('B'),), (x('A', True),), (x('Any'), y('A')), (x('A'), y('A', False, True)), (x('A'), H_CONTEXT, y('B')),
                 (x('C'),), (x('Any'), y('B'))]
     return out
+
+
+def one_parameter_plists():
+    """Every 1-parameter list over the whole type alphabet x nullable."""
+    return [(P('x', 'pos', t, nullable),) for t in ('Any', 'A', 'B', 'C', 'AC') for nullable in (False, True)]
 
 
 def kinds_plists(tier):
@@ -238,9 +248,13 @@ def classify(layers, call, path, obs, exp):
     for rel, name in MECHANISMS:
         if obs in (expected(layers, call, rel), expected(layers, call, rel + (M.KEYWORD_UNCHECKED,))):
             return name
+    if obs[0][:2] == ('exception', 'TypeError') and 'issubclass' in obs[0][2]:
+        return ('specialization-compare-raises tuple-vs-class (PythonType.is_specialization_of hands a tuple of classes '
+                'to issubclass as its first argument when one type is a class and the other a tuple of classes)')
     for _, overloads in layers:
         for o in overloads:
-            declared = [M.python_spelling(p[0]) for p in o[1] if p[1] in ('pos', 'kwonly')]
+            declared = [M.python_spelling(p[0]) for p in o[1]
+                        if p[1] in ('pos', 'kwonly') and M.python_spelling(p[0]) != p[0]]
             if any(p[1] == 'varkw' for p in o[1]) and any(k in declared for k, v in call[2]):
                 return ('python-spelling-captured-through-varkw (a keyword that is the python name of a declared parameter is '
                         'passed on inside **kwargs and python binds it to that parameter, unchecked)')
@@ -368,6 +382,19 @@ def job_pairs(tier, firsts):
     return res
 
 
+def job_types(tier):
+    """All pairs of 1-parameter overloads over {Any, A, B, C, AC} x nullable, all layerings."""
+    res = Result()
+    calls = list(enumerate(call_set(tier, 'small')))
+    pls = one_parameter_plists()
+    for name, lay in sorted(layerings(2).items()):
+        for i in range(len(pls)):
+            for j in range(i if name == 'same' else 0, len(pls)):
+                o = (overload(0, pls[i], 'ext'), overload(1, pls[j], 'ext'))
+                run_family(res, ('types', name, i, j), lay(o), calls)
+    return res
+
+
 def job_kinds(tier, firsts):
     """All kind combinations x layerings on the small parameter lists."""
     res = Result()
@@ -438,7 +465,7 @@ def strides(n, k):
 
 def jobs(tier, seed):
     quick = tier == 'quick'
-    out = [('grammar', 'job_grammar', (tier,))]
+    out = [('grammar', 'job_grammar', (tier,)), ('types', 'job_types', (tier,))]
     pls = all_plists(tier)
     for n, idx in enumerate(strides(len(pls), 8 if quick else 32)):
         out.append(('single-%02d' % n, 'job_single', (tier, [pls[i] for i in idx])))
